@@ -361,8 +361,9 @@ static void ctor_effective(Index n, Index nev, Index nvec_init, Index nvec_max, 
         maxs = n;
     if (n < init + corr)
     {
-        init = n / 3;
-        corr = n / 3;
+        // fallback sizes of JDSymEigsBase::initialize() (after the repair a1: never fewer than nev initial vectors, at least one correction)
+        init = std::max<Index>(n / 3, nev);
+        corr = std::max<Index>(1, std::min<Index>(n / 3, n - init));
     }
 }
 
@@ -377,8 +378,9 @@ static Sizes draw_sizes(vf::Draw& d, Index n)
 {
     Sizes s;
     s.form = (int) d.range("size_form", 0, 2);
-    // nev is bounded so that the sizes the constructor forms (initial = 2 nev resp. nvec_init, correction = nev) fit into n
-    Index nev_hi = s.form == 0 ? n / 3 : (s.form == 1 ? n / 2 : n - 1);
+    // every documented nev (1 <= nev <= n - 1); where the sizes the constructor forms (initial = 2 nev resp. nvec_init, correction = nev) do not
+    // fit into n the constructor falls back to sizes of its own, which must work as well
+    Index nev_hi = n - 1;
     s.nev = (Index) d.range("nev", 1, std::max<Index>(1, std::min<Index>(nev_hi, 8)));
     if (s.form == 0)
     {
